@@ -95,6 +95,34 @@ pub fn cases(args: &[String]) {
                 let v = sx[1].clone();
                 guarded(std::panic::AssertUnwindSafe(move || enc_line(&ty, &v).0))
             }
+            "encit" => {
+                // the top-level sequence written through serialize_iterator with an inexact size hint
+                let ty = parse_ty(&sx[0]);
+                let v = sx[1].clone();
+                guarded(std::panic::AssertUnwindSafe(move || {
+                    let d = build(&ty, &v);
+                    let items: Vec<Dyn> = match d {
+                        Dyn::Vec(x) | Dyn::Slice(x) | Dyn::Arr(x) => x,
+                        Dyn::LL(x) => x.into_iter().collect(),
+                        _ => panic!("encit needs an ordered sequence"),
+                    };
+                    struct Inexact<'a>(std::slice::Iter<'a, Dyn>);
+                    impl<'a> Iterator for Inexact<'a> {
+                        type Item = &'a Dyn;
+                        fn next(&mut self) -> Option<&'a Dyn> {
+                            self.0.next()
+                        }
+                        fn size_hint(&self) -> (usize, Option<usize>) {
+                            (0, None)
+                        }
+                    }
+                    let mut ctx = desert::SerializationContext::new(Vec::<u8>::new());
+                    match desert::serialize_iterator(&mut Inexact(items.iter()), &mut ctx) {
+                        Ok(()) => format!("ok {}", hex(&ctx.into_output())),
+                        Err(e) => format!("err {}", err_class(&e)),
+                    }
+                }))
+            }
             "dec" => {
                 let ty = parse_ty(&sx[0]);
                 let bytes = unhex(sx[1].atom());
